@@ -702,6 +702,10 @@ PROPS = {
                      "Secure; a flipped signature bit, a missing signature, a signature by a key outside the DNSKEY RRset never Secure; KSK and ZSK with the "
                      "same key tag both verify; genuine NXDOMAINs with their three NSEC3 records Secure; an NXDOMAIN for an existing name supported by every "
                      "NSEC3 of the zone but its own never Secure -- on the real crate (harness written by a round-7 seeding sub-agent)"},
+            {"bin": "c12_search_rsa_keys", "crate": "replay_sign", "release": True,
+             "what": "malformed RSA keys from upstream (the clause 'no malformed key makes the validator panic'): crypto::common::rsa_exponent_modulus, "
+                     "through which every RSA DNSKEY reaches the verifier, over 22 400 key fields -- both encodings of the exponent length, lengths on both "
+                     "sides of the data that follows, fields cut short -- never panics and accepts exactly the RFC 3110 section 2 layouts (shared with C12)"},
         ],
         "replays": [
             {"bin": "d55_validator_ttl0_panic", "crate": "replay_sign", "finding": "D55"},
